@@ -14,22 +14,34 @@
 
    Bound to the code by replaying simulated behaviours on a real proxy.Server (stub gopls, stub client) and comparing
    the server's copy (TemplSource) of EVERY document with the editor's text after every step.                     *)
-EXTENDS Naturals, Sequences, TLC, Json
+EXTENDS Naturals, Sequences
 
-CONSTANTS Docs,       \* document names
-          Texts,      \* document texts (strings)
-          OpenRule,   \* "replace": as coded.  "keepPreloaded": a defective design in which DidOpen keeps the copy the
+CONSTANTS
+    \* @type: Set(Str);
+    Docs,       \* document names
+    \* @type: Set(Str);
+    Texts,      \* document texts (strings)
+    \* @type: Str;
+    OpenRule,   \* "replace": as coded.  "keepPreloaded": a defective design in which DidOpen keeps the copy the
                       \* preload made (negative configuration: must be rejected by ServerTracksEditor)
-          HistLen
+    \* @type: Int;
+    HistLen
 
 None == "none"
 
-VARIABLES started,  \* Initialize + Initialized done
-          open,     \* [Docs -> BOOLEAN]
-          editor,   \* [Docs -> text the editor shows (None while the document is not open)]
-          server,   \* [Docs -> text the server's copy holds (None: no copy; "diverged": a copy that tracks nothing)]
-          disk,     \* [Docs -> text of the file on disk when the workspace was scanned (None: no such file)]
-          hist
+VARIABLES
+    \* @type: Bool;
+    started,  \* Initialize + Initialized done
+    \* @type: Str -> Bool;
+    open,     \* [Docs -> BOOLEAN]
+    \* @type: Str -> Str;
+    editor,   \* [Docs -> text the editor shows (None while the document is not open)]
+    \* @type: Str -> Str;
+    server,   \* [Docs -> text the server's copy holds (None: no copy; "diverged": a copy that tracks nothing)]
+    \* @type: Str -> Str;
+    disk,     \* [Docs -> text of the file on disk when the workspace was scanned (None: no such file)]
+    \* @type: Seq({op: Str, preload: Bool, doc: Str, text: Str, full: Bool});
+    hist
 vars == <<started, open, editor, server, disk, hist>>
 
 Init == /\ started = FALSE
@@ -39,6 +51,8 @@ Init == /\ started = FALSE
         /\ disk \in [Docs -> Texts \cup {None}]
         /\ hist = <<>>
 
+\* one record shape for every step (fields a step does not use hold a neutral value)
+Ev(op, preload, d, t, full) == [op |-> op, preload |-> preload, doc |-> d, text |-> t, full |-> full]
 Log(e) == hist' = Append(hist, e)
 
 \* Initialize + Initialized: with preload the server opens every templ file of the workspace from disk
@@ -47,7 +61,7 @@ Start(preload) ==
     /\ started' = TRUE
     /\ server' = [d \in Docs |-> IF preload THEN disk[d] ELSE None]
     /\ UNCHANGED <<open, editor, disk>>
-    /\ Log([op |-> "start", preload |-> preload])
+    /\ Log(Ev("start", preload, None, None, FALSE))
 
 Open(d, t) ==
     /\ started /\ ~open[d]
@@ -55,7 +69,7 @@ Open(d, t) ==
     /\ editor' = [editor EXCEPT ![d] = t]
     /\ server' = [server EXCEPT ![d] = IF OpenRule = "keepPreloaded" /\ server[d] # None THEN server[d] ELSE t]
     /\ UNCHANGED <<started, disk>>
-    /\ Log([op |-> "open", doc |-> d, text |-> t])
+    /\ Log(Ev("open", FALSE, d, t, TRUE))
 
 \* full: the change carries the whole text; otherwise it is the edit that turns the old text into the new one,
 \* which only gives the new text when it is applied to the old one
@@ -64,7 +78,7 @@ Change(d, t, full) ==
     /\ editor' = [editor EXCEPT ![d] = t]
     /\ server' = [server EXCEPT ![d] = IF full \/ server[d] = editor[d] THEN t ELSE "diverged"]
     /\ UNCHANGED <<started, open, disk>>
-    /\ Log([op |-> "change", doc |-> d, text |-> t, full |-> full])
+    /\ Log(Ev("change", FALSE, d, t, full))
 
 Close(d) ==
     /\ open[d]
@@ -72,7 +86,7 @@ Close(d) ==
     /\ editor' = [editor EXCEPT ![d] = None]
     /\ server' = [server EXCEPT ![d] = None]                \* DidClose deletes the copy
     /\ UNCHANGED <<started, disk>>
-    /\ Log([op |-> "close", doc |-> d])
+    /\ Log(Ev("close", FALSE, d, None, FALSE))
 
 Next == /\ Len(hist) < HistLen
         /\ \/ \E p \in BOOLEAN : Start(p)
@@ -88,6 +102,22 @@ Independent == [][\A d \in Docs : (hist' # hist /\ hist'[Len(hist')].op \in {"op
                                     => server'[d] = server[d]]_vars
 
 View == <<started, open, editor, server, disk>>
-\* simulation: print each finished behaviour for the replay harness
-PrintHist == (Len(hist) = HistLen) => PrintT(<<"HIST", ToJson([disk |-> disk, steps |-> hist])>>)
+
+(* Unbounded argument (Apalache, any number of steps): IndInv holds initially, is preserved by every step of the
+   relation without the bound on the history, and implies ServerTracksEditor.
+     apalache-mc check --config=LspSession_apalache.cfg --init=Init    --inv=IndInv --length=0
+     apalache-mc check --config=LspSession_apalache.cfg --init=IndInit --inv=IndInv --length=1
+     apalache-mc check --config=LspSession_apalache.cfg --init=IndInit --inv=ServerTracksEditor --length=0     *)
+IndInv == /\ started \in BOOLEAN
+          /\ open \in [Docs -> BOOLEAN]
+          /\ editor \in [Docs -> Texts \cup {None}]
+          /\ server \in [Docs -> Texts \cup {None, "diverged"}]
+          /\ disk \in [Docs -> Texts \cup {None}]
+          /\ ~started => \A d \in Docs : ~open[d]
+          /\ \A d \in Docs : open[d] => (server[d] = editor[d] /\ editor[d] \in Texts)
+IndInit == IndInv /\ hist = <<>>
+NextUnbounded == \/ \E p \in BOOLEAN : Start(p)
+                 \/ \E d \in Docs, t \in Texts : Open(d, t)
+                 \/ \E d \in Docs, t \in Texts, f \in BOOLEAN : Change(d, t, f)
+                 \/ \E d \in Docs : Close(d)
 =============================================================================
